@@ -92,6 +92,7 @@ func main() {
 				n, m = 300, 3000
 			}
 			cases = append(cases, names.RichC12(r, n)...)
+			cases = append(cases, names.NestedC12(r, n)...)
 			cases = append(cases, names.CaptureC12(r, m)...)
 			cases = append(cases, names.F13Case())
 		default:
